@@ -10,13 +10,14 @@ import (
 )
 
 func init() {
-	Explanations["C13"] = "Decides structural necessary conditions of 'rebasing a v2 set yields proofs valid at the target, never panics, and leaves the caller's input alone' in the Manager's rebasing method (identified by its signature ([]V2Transaction, ChainIndex, ChainIndex)): (R1) the reorg-path computation and every proof update are reached only after the basis state was found and ValidateTransactionElements succeeded for every transaction of the set (loop-guard rule); (R2) no write and no pointer handed to the proof updater reaches memory derived from the parameter — only values that passed DeepCopy are modified; (R3) every dereference of a block supplement obtained from the store in Manager methods is dominated by a non-nil test or a fresh allocation, so a pruned or unvalidated block yields an error, not a panic; (R4) outside the tip walker the reorg-path bound is a finite integer constant; (R5) the exported set-assembly methods (those using the output→transaction parent map) revalidate the pool before reading it, so confirmed transactions are never offered as unconfirmed parents; (R6) the proof updater compares an element's leaf index with the accumulator size only after excluding the ephemeral sentinel, so inputs created earlier in the same set survive a rebase; (R7) the output→position maps used for parent discovery are built per transaction kind and used only on their own list, so a lookup cannot return an unrelated transaction or panic (same check as C14.R5). The pool-side parts of 'assembling a broadcastable set' are decided under C05.R1 and C14.R3. NOT decided: equality of the resulting proofs with the ledger's, parent ordering."
+	Explanations["C13"] = "Decides structural necessary conditions of 'rebasing a v2 set yields proofs valid at the target, never panics, and leaves the caller's input alone' in the Manager's rebasing method (identified by its signature ([]V2Transaction, ChainIndex, ChainIndex)): (R1) the reorg-path computation and every proof update are reached only after the basis state was found and ValidateTransactionElements succeeded for every transaction of the set (loop-guard rule); (R2) no write and no pointer handed to the proof updater reaches memory derived from the parameter — only values that passed DeepCopy are modified; (R3) every dereference of a block supplement obtained from the store in Manager methods is dominated by a non-nil test or a fresh allocation, so a pruned or unvalidated block yields an error, not a panic; (R4) outside the tip walker the reorg-path bound is a finite integer constant; (R5) the exported set-assembly methods (those using the output→transaction parent map) revalidate the pool before reading it, so confirmed transactions are never offered as unconfirmed parents; (R6) the proof updater compares an element's leaf index with the accumulator size only after excluding the ephemeral sentinel, so inputs created earlier in the same set survive a rebase; (R7) the output→position maps used for parent discovery are built per transaction kind and used only on their own list, so a lookup cannot return an unrelated transaction or panic (same check as C14.R5). The pool-side parts of 'assembling a broadcastable set' are decided under C05.R1 and C14.R3. (R8) a range loop over a list that its body appends to (the parent worklist of the set assembly, closures expanded) is enclosed in a loop whose exit tests the list's length, so ancestors of every depth are found. NOT decided: equality of the resulting proofs with the ledger's, parent ordering."
 
 	register(&Rule{ID: "C13.R1", Prop: "C13", Floor: 3, Doc: "validate-before-update: proofs are checked against the basis before any update", Run: c13r1})
 	register(&Rule{ID: "C13.R2", Prop: "C13", Floor: 1, Doc: "caller's memory untouched: only deep copies are modified", Run: c13r2})
 	register(&Rule{ID: "C13.R3", Prop: "C13", Floor: 5, Doc: "supplement dereferences are nil-guarded (pruned/unvalidated blocks give errors, not panics)", Run: c13r3})
 	register(&Rule{ID: "C13.R4", Prop: "C13", Floor: 1, Doc: "rebasing uses a finite reorg-path bound", Run: c13r4})
 	register(&Rule{ID: "C13.R7", Prop: "C13", Floor: 3, Doc: "parent discovery uses a position map of the right transaction kind (same check as C14.R5)", Run: positionMapsKindSafe})
+	register(&Rule{ID: "C13.R8", Prop: "C13", Floor: 1, Doc: "ancestor discovery iterates its growing worklist to a fixpoint", Run: c13r8})
 	register(&Rule{ID: "C13.R6", Prop: "C13", Floor: 1, Doc: "the proof updater skips ephemeral elements before range-checking leaf indices", Run: ephemeralSkipped})
 	register(&Rule{ID: "C13.R5", Prop: "C13", Floor: 2, Doc: "set assembly discovers parents in a revalidated pool", Run: func(c *Ctx) {
 		// the parent-discovery helper: unexported Manager method returning a map keyed by Hash256
@@ -462,10 +463,103 @@ func ephemeralSkipped(c *Ctx) {
 					}
 				}
 			}
+			// the accumulator holds leaves 0 … size-1: the relation tested must be `leaf < size` (or its negation `leaf >= size`)
+			op := cmp.Op
+			if f.ObjOf(cmp.X) == size { // size on the left: mirror
+				switch op {
+				case token.LSS:
+					op = token.GTR
+				case token.GTR:
+					op = token.LSS
+				case token.LEQ:
+					op = token.GEQ
+				case token.GEQ:
+					op = token.LEQ
+				}
+			}
+			obS := c.Ob(f, "leaf-bound-is-strict", cmp.Pos())
+			obS.Check(op == token.LSS || op == token.GEQ, nil, "the element's leaf index is compared with the accumulator size at %s with `%s`: an element whose leaf index equals the number of leaves (the first leaf a reverted block had added) passes the bound, and core's proof update panics on it instead of the rebase returning an error", c.P.Pos(cmp.Pos()), cmp.Op)
 			ob.Check(f.OnlyVia(node, edges), nil, "the element's leaf index is compared with the accumulator size at %s without first excluding the ephemeral sentinel (types.UnassignedLeafIndex): a transaction spending an output created earlier in the same set is declared invalid, so it is dropped from the pool by any block and cannot be rebased", c.P.Pos(cmp.Pos()))
 		}
 	}
 	if n == 0 {
 		ir.Fail("no leaf-index range check found in the proof updater")
+	}
+}
+
+// c13r8: a worklist that is extended while it is being ranged over. `for _, x :=
+// range P { … P = append(P, …) … }` visits only the elements P had when the loop
+// started (the range expression is evaluated once), so discovering *all*
+// ancestors of a transaction needs an enclosing loop that repeats the pass until
+// P stops growing. Without it the assembled set lacks the grand-grand-parents
+// and is not broadcastable.
+func c13r8(c *Ctx) {
+	r := getChainRoles(c.P)
+	n := 0
+	for _, f := range r.vs.Roots {
+		for _, fn := range append([]*ir.Func{f}, f.Lits...) {
+			g := fn.Graph()
+			for _, head := range g.Nodes {
+				rs, ok := head.AST.(*ast.RangeStmt)
+				if !ok || !simpleLvalue(rs.X) {
+					continue
+				}
+				if _, isSlice := fn.TypeOf(rs.X).Underlying().(*types.Slice); !isSlice {
+					continue
+				}
+				grows := false
+				for _, w := range fn.WritesIn(rs.Body, false) {
+					if !sameLvalue(fn, w.LHS, rs.X) || w.RHS == nil {
+						continue
+					}
+					if ac, ok := ast.Unparen(w.RHS).(*ast.CallExpr); ok && len(ac.Args) >= 2 {
+						if id, ok := ac.Fun.(*ast.Ident); ok && id.Name == "append" && sameLvalue(fn, ac.Args[0], rs.X) {
+							grows = true
+						}
+					}
+				}
+				if !grows {
+					continue
+				}
+				n++
+				c.VisitGraph(fn)
+				ob := c.Ob(fn, "growing-worklist-iterated-to-fixpoint", rs.Pos())
+				good := false
+				ir.Walk(fn.Body, false, func(x ast.Node) {
+					fs, ok := x.(*ast.ForStmt)
+					if !ok || !containsNode(fs.Body, rs) {
+						return
+					}
+					// the enclosing loop's exit must depend on the list's length
+					ir.Walk(fs, false, func(y ast.Node) {
+						if containsNode(rs, y) {
+							return
+						}
+						if call, ok := y.(*ast.CallExpr); ok {
+							if lx := lenOf(fn, call); lx != nil && sameLvalue(fn, lx, rs.X) {
+								good = true
+							}
+						}
+					})
+				})
+				ob.Check(good, nil, "the loop at %s ranges over %s and appends to it, but is not repeated until the list stops growing: elements appended during the pass are never visited, so ancestors beyond the second level are missing from the assembled set", c.P.Pos(rs.Pos()), ir.ExprString(rs.X))
+			}
+		}
+	}
+	if n == 0 {
+		ir.Fail("no worklist loop (range over a list the body appends to) found in package chain")
+	}
+}
+
+func simpleLvalue(e ast.Expr) bool {
+	for {
+		switch t := ast.Unparen(e).(type) {
+		case *ast.Ident:
+			return true
+		case *ast.SelectorExpr:
+			e = t.X
+		default:
+			return false
+		}
 	}
 }
